@@ -100,6 +100,23 @@ class CRunner:
                            stdout=subprocess.PIPE, stderr=subprocess.STDOUT, timeout=6000)
         res["impl_rc"] = r.returncode
         res["impl_out"] = r.stdout.decode("utf-8", "replace")[-2000:]
+        # The traces are large (state dump + refcounts after every call), so every shard is
+        # compared right here, at ALL levels, and then compacted: for a shard without
+        # divergence and without VIOL line only the H lines are kept (so that a later
+        # compare_traces still counts the histories); the numbers are handed back in `res`.
+        if want_model and res.get("model_rc") == 0 and res["impl_rc"] == 0:
+            prop = tag.split("-")[0]
+            levels = PROPS_C.get(prop, {}).get("levels") or ALL_LEVELS
+            nh, no, dv = compare_traces(os.path.join(d, "model"), os.path.join(d, "impl"), levels)
+            res.update(n_hist=nh, n_obs=no, divergences=dv, nontrivial=nontrivial_c(os.path.join(d, "impl")))
+            try:
+                nviol = sum(1 for l in open(os.path.join(d, "viol")) if l.startswith("VIOL "))
+            except OSError:
+                nviol = 0
+            if not dv and not nviol and os.environ.get("C_KEEP_TRACES") != "1":
+                for f in ("model", "impl"):
+                    compact_trace(os.path.join(d, f))
+                res["compacted"] = True
         return res
 
     def viols_for(self, hist_lines, prop, tmpname):
@@ -117,12 +134,25 @@ class CRunner:
             return []
 
 
+ALL_LEVELS = ["O", "T", "CH", "SZ", "TC", "RC", "E", "X"]
+
+
+def compact_trace(path):
+    """keep only the history headers of a trace that has already been compared"""
+    try:
+        heads = [l for l in open(path, errors="replace") if l.startswith("H ")]
+        with open(path, "w") as fh:
+            fh.writelines(heads)
+    except OSError:
+        pass
+
+
 PROPS_C = {
     # levels: trace line prefixes compared with the model
     "C12": dict(target="c", impl="c", runner=CRunner, levels=["O", "T", "CH", "SZ", "TC", "X"],
-                quick=(16, 100), thorough=(64, 200), trusted=TRUSTED_C),
+                quick=(16, 100), thorough=(64, 100), trusted=TRUSTED_C),
     "C13": dict(target="c", impl="c", runner=CRunner, levels=["O", "T", "TC", "RC", "E", "X"],
-                quick=(16, 100), thorough=(64, 200), trusted=TRUSTED_C),
+                quick=(16, 100), thorough=(64, 100), trusted=TRUSTED_C),
 }
 
 
@@ -262,13 +292,13 @@ def check(prop, seed, tier, root):
             print("ERROR: shard %s: model rc=%s %s | impl rc=%s %s" % (r["tag"], r.get("model_rc"), r.get("model_err", ""),
                                                                       r.get("impl_rc"), r.get("impl_out", "")[-1500:]))
             return 2
-        nh, no, dv = compare_traces(os.path.join(d, "model"), os.path.join(d, "impl"), cfg["levels"])
+        nh, no, dv = r["n_hist"], r["n_obs"], r["divergences"]     # compared (and compacted) in run_shard
         n_hist += nh
         n_obs += no
         for x in dv:
             x["dir"] = d
         divs += dv
-        nontriv += nontrivial_c(os.path.join(d, "impl"))
+        nontriv += r["nontrivial"]
         for l in open(os.path.join(d, "viol")):
             if l.startswith("VIOL " + prop + " "):
                 viols.append((d, l.strip()))
